@@ -147,7 +147,7 @@ def install_summary(I, prog, classes, runtime):
     I.type_drops['ActorPortSet'] = lambda I, st, v, ref: ports_drop(I, st, None, None, None)
 
 
-def explore_lifecycle(prog, classes, runtime='ActorRuntime', poll_budget=1, with_supervisor=True, sup_status=None, start_polls=3, task_polls=6):
+def explore_lifecycle(prog, classes, runtime='ActorRuntime', poll_budget=1, with_supervisor=True, sup_status=None, start_polls=3, task_polls=6, cancel_points=False):
     """returns (I, actor, results): results = list of dict(phase, state, kind, value)"""
     I = ar.new_interp(prog, poll_budget, runtime)
     I.max_paths = 400000
@@ -180,7 +180,7 @@ def explore_lifecycle(prog, classes, runtime='ActorRuntime', poll_budget=1, with
     for (s, kind, v, n) in ar.drive(I, st, ccell, start_polls, 'st'):
         if kind == 'ready' and v.variant == 'Ok':
             s.emit('START_OK')
-            for (s2, k2, v2, n2) in ar.run_task(I, s, task_polls):
+            for (s2, k2, v2, n2) in ar.run_task(I, s, task_polls, cancel_points=cancel_points):
                 results.append({'phase': 'task', 'state': s2, 'kind': k2, 'value': v2})
         else:
             if kind == 'ready':
